@@ -52,6 +52,10 @@ def oracle(c, op, out, before, after, metrics_before):
         else:
             body = s.format()
             payload = body[len(s.content) + 2:] if s.content and body.startswith(s.content + "\n\n") else body
+            if isinstance(s, PlotSection):
+                inner = payload[len("<details>\n<summary> Click to expand </summary>\n\n"):-len("\n\n</details>")] if s.folded else payload
+                if inner != f"![{s.alt_text or s.path}]({s.path})":
+                    fails.append(f"plot-link: plot section {s.title!r} holds path {str(s.path)!r} (alt {s.alt_text!r}) but renders {inner!r}")
             if payload.startswith("<details>") != bool(s.folded):
                 fails.append(f"details: {type(s).__name__} {s.title!r} folded={s.folded} but payload wrapped={payload.startswith('<details>')}")
         want.append(body)
